@@ -697,6 +697,8 @@ void Parser::ParserImpl::loadComponent(const ComponentPtr &component, const XmlN
                 }
                 mathAttribute = mathAttribute->next();
             }
+            // The namespace of the math element itself (prefixed or default) may be declared on an ancestor too.
+            possiblyUndefinedNamespaces.emplace(childNode->namespacePrefix(), childNode->namespaceUri());
             auto undefinedNamespaces = determineMissingNamespaces(possiblyUndefinedNamespaces, mathElementDefinedNamespaces);
             XmlNamespaceMap::const_iterator it;
             for (it = undefinedNamespaces.begin(); it != undefinedNamespaces.end(); ++it) {
